@@ -114,6 +114,16 @@ func c06Check(in c06Input) (key, what string) {
 			return "", ""
 		}
 		c06Decorate(r, f, in.Dens)
+		if in.Pick%3 == 1 {
+			// an edited file: the first spec of an import declaration is taken out of the declaration while
+			// File.Imports (which the restorer does not consult) still lists it -- the clone must copy it too
+			for _, d := range f.Decls {
+				if gd, ok := d.(*dst.GenDecl); ok && gd.Tok == token.IMPORT && len(gd.Specs) > 1 {
+					gd.Specs = gd.Specs[1:]
+					break
+				}
+			}
+		}
 		want, err, pm := printDst(f)
 		if pm != "" || err != nil {
 			return "", ""
@@ -134,6 +144,15 @@ func c06Check(in c06Input) (key, what string) {
 		for n := range nodeSet(cl) {
 			if on[n] {
 				return "c06-shared-node", fmt.Sprintf("clone and original share a %T node", n)
+			}
+		}
+		// File.Imports (not a child list of the traversal, but part of the node: "every syntactic field")
+		if len(cl.Imports) != len(f.Imports) {
+			return "c06-shared-node", fmt.Sprintf("the clone's File.Imports has %d entries, the original's %d", len(cl.Imports), len(f.Imports))
+		}
+		for i := range f.Imports {
+			if cl.Imports[i] == f.Imports[i] || (cl.Imports[i].Path != nil && cl.Imports[i].Path == f.Imports[i].Path) {
+				return "c06-shared-node", fmt.Sprintf("clone and original share the import spec File.Imports[%d] (%s)", i, f.Imports[i].Path.Value)
 			}
 		}
 		// links dropped
@@ -305,7 +324,7 @@ func c06Prop(c *Ctx) {
 	}
 	for _, src := range srcs {
 		for _, dens := range []int{1, 3, 0} {
-			run(c06Input{Src: src, Seed: c.Rng.Int63(), Dens: dens, Mode: "clone", Pick: c.Rng.Intn(2)})
+			run(c06Input{Src: src, Seed: c.Rng.Int63(), Dens: dens, Mode: "clone", Pick: c.Rng.Intn(6)})
 		}
 		for k := 0; k < 3; k++ {
 			run(c06Input{Src: src, Seed: 1, Mode: "dup", Pick: c.Rng.Intn(1000)})
